@@ -69,7 +69,7 @@ def run(ctx):
                         kinds['pt.closed-form-evaluated'] += 1
                     if abs(r['latq']) == 90000000:
                         kinds['pt.at-a-pole'] += 1
-                    if abs(r['latq']) <= 89000000 and abs(r['dlq']) <= 179000000 and -3000000 <= r['kq'] <= 3000000:
+                    if abs(r['latq']) <= 89000000 and abs(r['dlq']) <= 179000000 and -2000000 <= r['kq'] <= 2000000 and 0 <= r['amp'] <= 100000:
                         kinds['pt.finite-differences'] += 1
                     if r['gq'] > 179900000:
                         kinds['pt.cone-angle-wraps(excluded from inverse laws)'] += 1
